@@ -54,6 +54,11 @@ def setup():
 
 
 def obligations_phase(mod, tier):
+    with leanio.lock():
+        return _obligations_phase(mod, tier)
+
+
+def _obligations_phase(mod, tier):
     """returns (obligations: list of dict(name, ok, detail), info)"""
     prop = mod.ID
     obl = []
@@ -95,7 +100,9 @@ def obligations_phase(mod, tier):
                         "kind": "theorem"})
     if not theorems:
         obl.append({"name": "%s declares property theorems" % props_module, "ok": False, "detail": "none found", "kind": "audit"})
-    info = {"closure": sorted(closure), "external_imports": leanio.external_imports(closure),
+    drv = getattr(mod, "DRIVER", "drv_" + prop.lower())
+    snap = leanio.snapshot_driver(drv) if (drv and driver_ok) else None
+    info = {"driver_path": snap, "driver_name": drv, "closure": sorted(closure), "external_imports": leanio.external_imports(closure),
             "axioms_used": sorted(axioms_seen), "driver_ok": driver_ok,
             "checker_cmd": "cd lean && lake build %s && lake env lean <audit file with `#print axioms` for the %d theorems of %s>" % (
                 " ".join(targets), len(theorems), props_module)}
@@ -164,8 +171,10 @@ def check(prop, tier, seed, replay_path=None):
     obl, info = obligations_phase(mod, tier)
     broken = [o for o in obl if not o["ok"]]
     ctx.model_ok = info["driver_ok"]
-    if not info["driver_ok"]:
+    if not info["driver_ok"] or not info["driver_path"]:
         ctx._driver = NoDriver()
+    else:
+        ctx._driver = leanio.Driver(info["driver_name"], info["driver_path"])
 
     common.import_repo()
     known = common.load_known()
